@@ -67,6 +67,8 @@ def step (st : ESt) (toks : List String) : ESt × String :=
     | none => (st, "bad-op")
   | ["skipad"] => reply st (skipClassAdRaw st.s) showU
   | ["tls"] => reply st (tlsRecv st.s) showB
+  | ["krb"] => reply st (krbRead st.s) showB
+  | ["rawfield"] => reply st (rawField st.s) showU
   | ["xkey"] => reply st (exchangeKey st.s) showU
   | ["idstr"] => reply st (getIDString st.s) showB
   | ["token"] => reply st (getToken st.s) showB
@@ -83,6 +85,12 @@ def step (st : ESt) (toks : List String) : ESt × String :=
   | ["recvf"] =>
     match recvFrame st.encOn st.wire {} with
     | (.ok (fl, p, rest), _) => ({ st with wire := rest }, s!"ok {fl} {showBytes p} rest={rest.length}")
+    | (.error e, _) => (st, errStr e)
+  | ["recvn"] => wireReply st (recvFrameNE st.encOn st.wire {})
+  | ["getsecret"] => wireReply st (getSecretW st.encOn st.encOn st.wire {})
+  | ["getfile"] =>
+    match getFile st.encOn st.wire {} with
+    | (.ok (n, rest), _) => ({ st with wire := rest }, s!"ok {n} rest={rest.length}")
     | (.error e, _) => (st, errStr e)
   | ["passsock", pl] =>
     match parsePayload pl with
